@@ -1,5 +1,6 @@
 /-
-  Cello/Table.lean — executable model of src/Table.c as it is in /repo now (after the `fix:` commits for F02, F03),
+  Cello/Table.lean — executable model of src/Table.c as it is in /repo now (after the `fix:` commits for F02, F03 and the
+  self-assignment guard a3140e4),
   and the association-list specification it is proved against (CelloProofs/Props/C02.lean).  Core Lean only.
 
   A table is `nslots` (`n`), the slot array (`RH.Slots`: per slot `none` = stored hash 0, or the entry with its stored
@@ -9,7 +10,7 @@
   has one `setMove`.
 
   What can differ between source versions is a parameter (`Cfg`): the displacement test (`j > p` / `j >= p`), whether
-  `Table_Set` grows an `nslots = 0` table first, and `Table_Ideal_Size`; the check instantiates them from
+  `Table_Set` grows an `nslots = 0` table first, `Table_Ideal_Size`, whether `Table_Assign` guards `self is obj`; the check instantiates them from
   CelloGen/Table.lean, which the translator regenerates from src/Table.c on every run.
 
   Outcomes: a Cello exception is an `Obs.raised` next to the (unchanged or changed) state; undefined behaviour
@@ -22,11 +23,13 @@ open RH
 inductive Exc where
   | KeyError
   | FormatError
+  | ValueError      -- `cast(key, t->ktype)` of an object that is not of the key type
 deriving DecidableEq, Repr, Inhabited
 
 def Exc.name : Exc → String
   | .KeyError => "KeyError"
   | .FormatError => "FormatError"
+  | .ValueError => "ValueError"
 
 inductive Fail where
   | ub        -- `hash(key) % 0`: integer division by zero
@@ -45,6 +48,11 @@ structure Cfg where
   growEmpty : Bool
   /-- `Table_Ideal_Size` -/
   ideal : Nat → Nat
+  /-- `Table_Assign` starts with `if (self is obj) { return; }` (fix a3140e4 of the self-assignment defect) -/
+  selfGuard : Bool := true
+  /-- the address test at the top of `Table_Get` takes its short cut only for the key object of an occupied record
+      (`true`: the repair proposed for KF-C02-get-alias); `false`: Table.c:523-525 as it is — any address inside the slot array -/
+  getChecksKey : Bool := false
 
 /-- `Table_Ideal_Size` over a prime table and a load factor `num/den`:
     `size = (size_t)((double)(size+1) / lf)`, first prime `>= size`, else the first multiple of the last prime `>= size`.
@@ -140,9 +148,12 @@ inductive Obs (κ ν : Type) where
   | nat (n : Nat)
   | items (l : List (κ × ν))
   | badOp
+  /-- a pointer to an all-zero record (no header, no value): what `Table_Get` hands out for an address inside an *empty* slot -/
+  | zeroed
 deriving Repr
 
-/-- `Table_Get` (for a key that does not point into the table's own storage) -/
+/-- `Table_Get` from `key = cast(key, t->ktype)` on, i.e. for a `key` object that does NOT lie inside the table's own slot
+    array (`getArg` below is the whole function, with the address test of l.523-525 in front) -/
 def get (hash : κ → Nat) (t : Tab κ ν) (k : κ) : Except Fail (Obs κ ν) :=
   match find hash t k with
   | .error f => .error f
@@ -151,6 +162,74 @@ def get (hash : κ → Nat) (t : Tab κ ν) (k : κ) : Except Fail (Obs κ ν) :
     match t.slots[i] with
     | some e => .ok (.val e.val)
     | none => .ok (.raised .KeyError)      -- unreachable: `findLoop` only returns occupied slots
+
+/-! ### the `key` argument of `Table_Get` as the C code sees it: an address.
+
+    `Table_Get` (Table.c:523-525) first tests whether `key` lies in `[data, data + nslots*step)`; if so it returns
+    `Table_Val(t, (key - data) / step)` at once — no hash, no comparison, no look at which part of the record the pointer
+    names, no look at whether the slot is occupied.  That is how `foreach (k in t) get(t, k)` avoids re-hashing; it is also
+    what `get(t, get(t, k))` runs into.  `Table_Mem` / `Table_Rem` / `Table_Set` have no such test. -/
+
+/-- which object of a slot record a pointer names -/
+inductive Part where
+  | key    -- `Table_Key(t, i)`: what `Table_Iter_Init/Next/Last/Prev` hand out
+  | val    -- `Table_Val(t, i)`: what `Table_Get` returns
+deriving DecidableEq, Repr
+
+inductive KeyArg (κ : Type) where
+  /-- an object outside the table's slot array (a `$I(..)` on the stack, a heap object, a record of another table) with key value `k` -/
+  | obj (k : κ)
+  /-- a pointer into record `i` of this table's own slot array -/
+  | inSlot (i : Nat) (part : Part)
+deriving Repr
+
+/-- the decidable side condition of the lookup theorems: the key object does not live in the table it is looked up in -/
+def KeyArg.outside : KeyArg κ → Bool
+  | .obj _ => true
+  | .inSlot _ _ => false
+
+/-- Table.c:523-525 as it is, for an address inside record `i` -/
+def getInSlot (t : Tab κ ν) (i : Fin t.n) : Obs κ ν :=
+  match t.slots[i] with
+  | some e => .val e.val
+  | none => .zeroed
+
+/-- the repaired address test (`key is Table_Key(t, i) and Table_Key_Hash(t, i) isnt 0`, else fall through to
+    `cast(key, t->ktype)` and the probing loop): the object in the record is then an ordinary key argument, read as a key by
+    `asKey` (a value object of another type, or the zeroed object of an empty record: the cast raises ValueError) -/
+def getInSlotChecked (hash : κ → Nat) (asKey : ν → Option κ) (t : Tab κ ν) (i : Fin t.n) (part : Part) :
+    Except Fail (Obs κ ν) :=
+  match t.slots[i], part with
+  | some e, .key => .ok (.val e.val)
+  | some e, .val =>
+    match asKey e.val with
+    | none => .ok (.raised .ValueError)
+    | some k' => get hash t k'
+  | none, _ => .ok (.raised .ValueError)
+
+/-- **`Table_Get`, whole function.**  (`inSlot i` with `i ≥ nslots` is not an address inside the array: `badOp`.) -/
+def getArg (cfg : Cfg) (hash : κ → Nat) (asKey : ν → Option κ) (t : Tab κ ν) : KeyArg κ → Except Fail (Obs κ ν)
+  | .inSlot i part =>
+    if h : i < t.n then
+      if cfg.getChecksKey then getInSlotChecked hash asKey t ⟨i, h⟩ part else .ok (getInSlot t ⟨i, h⟩)
+    else .ok .badOp
+  | .obj k => get hash t k
+
+/-- `p = key object the table stores for k` (located through `v = get(t, k)`: the record of `v`), then `get(t, p)`:
+    the path of `foreach (p in t) get(t, p)` for one key -/
+def getViaKey (cfg : Cfg) (hash : κ → Nat) (asKey : ν → Option κ) (t : Tab κ ν) (k : κ) : Except Fail (Obs κ ν) :=
+  match find hash t k with
+  | .error f => .error f
+  | .ok none => .ok (.raised .KeyError)
+  | .ok (some i) => getArg cfg hash asKey t (.inSlot i.val .key)
+
+/-- `get(t, get(t, k))`: the first call probes for the outside object `k` and returns `v = Table_Val(t, i)`; the second
+    call is given `v`, which lies inside record `i` -/
+def getViaVal (cfg : Cfg) (hash : κ → Nat) (asKey : ν → Option κ) (t : Tab κ ν) (k : κ) : Except Fail (Obs κ ν) :=
+  match find hash t k with
+  | .error f => .error f
+  | .ok none => .ok (.raised .KeyError)
+  | .ok (some i) => getArg cfg hash asKey t (.inSlot i.val .val)
 
 /-- `Table_Mem` -/
 def mem (hash : κ → Nat) (t : Tab κ ν) (k : κ) : Except Fail (Obs κ ν) :=
@@ -280,11 +359,28 @@ def assignFrom (cfg : Cfg) (hash : κ → Nat) (src : Tab κ ν) : Except Fail (
   if cfg.ideal src.nitems = 0 then .ok (Tab.empty 0)
   else (sourceEntries src).foldlM (reinsert cfg hash) (Tab.empty (cfg.ideal src.nitems))
 
-/-- `Table_Assign(self, self)`: `Table_Clear(self)` runs first, then `len(obj)` is 0 and nothing is iterated -/
-def assignSelf (cfg : Cfg) : Tab κ ν := Tab.empty (cfg.ideal 0)
+/-- `Table_Assign(self, self)` as it was BEFORE fix a3140e4 (no `self is obj` guard): `Table_Clear(self)` runs first, then
+    `len(obj)` is 0 and nothing is iterated -/
+def assignSelfOld (cfg : Cfg) : Tab κ ν := Tab.empty (cfg.ideal 0)
+
+/-- `Table_Assign(self, self)`: returns at once when the guard is there -/
+def assignSelf (cfg : Cfg) (t : Tab κ ν) : Tab κ ν := if cfg.selfGuard then t else assignSelfOld cfg
 
 /-- `new(Table, K, V)` -/
 def new (cfg : Cfg) : Tab κ ν := Tab.empty (cfg.ideal 0)
+
+/-- the insertion loop of `Table_New` (initial pairs) and of `Table_Assign` from an arbitrary map: one `Table_Set_Move`
+    per pair in the order given — NO `Table_Resize_More` in between, the array was sized beforehand -/
+def insertAll (cfg : Cfg) (hash : κ → Nat) (t : Tab κ ν) (kvs : List (κ × ν)) : Except Fail (Tab κ ν) :=
+  kvs.foldlM (fun t p => setMove cfg hash t p.1 p.2) t
+
+/-- `new(Table, K, V, k1, v1, …, kn, vn)` (Table.c:153-181) and `Table_Assign(self, obj)` after its `Table_Clear` for a
+    map `obj` that is not a Table (Table.c:233-260; `len(obj) = n`, `foreach`/`get` yield the pairs in this order):
+    `nslots = Table_Ideal_Size(n)`; `nslots is 0` returns before the loop; else a zeroed array and the insertion loop.
+    A pair list may repeat a key (constructor arguments): the later pair replaces the earlier one. -/
+def fill (cfg : Cfg) (hash : κ → Nat) (kvs : List (κ × ν)) : Except Fail (Tab κ ν) :=
+  if cfg.ideal kvs.length = 0 then .ok (Tab.empty 0)
+  else insertAll cfg hash (Tab.empty (cfg.ideal kvs.length)) kvs
 
 /-! ### histories over several tables -/
 
@@ -300,6 +396,10 @@ inductive Op (κ ν : Type) where
   | resize (t : Nat) (m : Nat)
   | assign (dst src : Nat)
   | copy (dst src : Nat)
+  /-- `tables[t] = new(Table, K, V, k1, v1, …)`; `odd`: one more argument after the pairs (FormatError, `tables[t]` keeps its value) -/
+  | newWith (t : Nat) (kvs : List (κ × ν)) (odd : Bool)
+  /-- `assign(tables[dst], obj)` for a map `obj` that is not a Table (a Tree): `len(obj) = kvs.length`, iteration yields `kvs` -/
+  | assignMap (dst : Nat) (kvs : List (κ × ν))
 deriving Repr
 
 /-- one operation on the tables `ts` (objects named by index); an index that names no table is a `badOp` -/
@@ -317,7 +417,7 @@ def step (cfg : Cfg) (hash : κ → Nat) (ts : List (Tab κ ν)) : Op κ ν → 
     | some tb => match rem cfg hash tb k with
       | .error f => .error f
       | .ok (tb', o) => .ok (ts.set t tb', o)
-  | .get t k =>
+  | .get t k =>      -- the key object is outside every table's storage: `getArg cfg hash _ tb (.obj k)`
     match ts[t]? with
     | none => .ok (ts, .badOp)
     | some tb => match get hash tb k with
@@ -349,8 +449,8 @@ def step (cfg : Cfg) (hash : κ → Nat) (ts : List (Tab κ ν)) : Op κ ν → 
       | .ok (tb', o) => .ok (ts.set t tb', o)
   | .assign dst src =>
     match ts[dst]?, ts[src]? with
-    | some _, some sb =>
-      if dst = src then .ok (ts.set dst (assignSelf cfg), .done)
+    | some db, some sb =>
+      if dst = src then .ok (ts.set dst (assignSelf cfg db), .done)
       else match assignFrom cfg hash sb with
         | .error f => .error f
         | .ok tb' => .ok (ts.set dst tb', .done)
@@ -363,6 +463,19 @@ def step (cfg : Cfg) (hash : κ → Nat) (ts : List (Tab κ ν)) : Op κ ν → 
       | .error f => .error f
       | .ok tb' => .ok (ts.set dst tb', .done)
     | _, _ => .ok (ts, .badOp)
+  | .newWith t kvs odd =>
+    if t < ts.length then
+      if odd then .ok (ts, .raised .FormatError)
+      else match fill cfg hash kvs with
+        | .error f => .error f
+        | .ok tb' => .ok (ts.set t tb', .done)
+    else .ok (ts, .badOp)
+  | .assignMap dst kvs =>
+    if dst < ts.length then
+      match fill cfg hash kvs with
+      | .error f => .error f
+      | .ok tb' => .ok (ts.set dst tb', .done)
+    else .ok (ts, .badOp)
 
 
 /-- take element `i` out of a list, leaving `d` in its place (one traversal; the element is moved, not shared) -/
@@ -431,8 +544,8 @@ def stepFast (cfg : Cfg) (hash : κ → Nat) (ts : List (Tab κ ν)) : Op κ ν 
       | .ok (tb', o) => .ok (ts.set t tb', o)
   | .assign dst src =>
     match ts[dst]?, ts[src]? with
-    | some _, some sb =>
-      if dst = src then .ok (ts.set dst (assignSelf cfg), .done)
+    | some db, some sb =>
+      if dst = src then .ok (ts.set dst (assignSelf cfg db), .done)
       else match assignFrom cfg hash sb with
         | .error f => .error f
         | .ok tb' => .ok (ts.set dst tb', .done)
@@ -445,6 +558,19 @@ def stepFast (cfg : Cfg) (hash : κ → Nat) (ts : List (Tab κ ν)) : Op κ ν 
       | .error f => .error f
       | .ok tb' => .ok (ts.set dst tb', .done)
     | _, _ => .ok (ts, .badOp)
+  | .newWith t kvs odd =>
+    if t < ts.length then
+      if odd then .ok (ts, .raised .FormatError)
+      else match fill cfg hash kvs with
+        | .error f => .error f
+        | .ok tb' => .ok (ts.set t tb', .done)
+    else .ok (ts, .badOp)
+  | .assignMap dst kvs =>
+    if dst < ts.length then
+      match fill cfg hash kvs with
+      | .error f => .error f
+      | .ok tb' => .ok (ts.set dst tb', .done)
+    else .ok (ts, .badOp)
 
 @[csimp] theorem step_eq_fast : @step = @stepFast := by
   funext κ ν inst cfg hash ts op
@@ -471,6 +597,21 @@ abbrev Spec (κ ν : Type) := List (κ × ν)
 def Spec.get (m : Spec κ ν) (k : κ) : Option ν := (m.find? (fun p => decide (p.1 = k))).map (·.2)
 def Spec.rem (m : Spec κ ν) (k : κ) : Spec κ ν := m.filter (fun p => !decide (p.1 = k))
 def Spec.set (m : Spec κ ν) (k : κ) (v : ν) : Spec κ ν := (k, v) :: Spec.rem m k
+
+/-- the map a list of pairs denotes: a later pair for the same key wins -/
+def Spec.ofPairs (kvs : List (κ × ν)) : Spec κ ν := kvs.foldl (fun m p => Spec.set m p.1 p.2) []
+
+/-- what the map answers to `get(t, x)` when `x` is the *value* object bound to `k`, read as a key by `asKey`
+    (`cast(x, t->ktype)`: `none` when the value is not of the key type) -/
+def Spec.getOfVal (asKey : ν → Option κ) (m : Spec κ ν) (k : κ) : Obs κ ν :=
+  match Spec.get m k with
+  | none => .raised .KeyError
+  | some v =>
+    match asKey v with
+    | none => .raised .ValueError
+    | some k' => match Spec.get m k' with
+      | none => .raised .KeyError
+      | some w => .val w
 
 def specStep (ms : List (Spec κ ν)) : Op κ ν → List (Spec κ ν) × Obs κ ν
   | .new t => if t < ms.length then (ms.set t [], .done) else (ms, .badOp)
@@ -521,6 +662,12 @@ def specStep (ms : List (Spec κ ν)) : Op κ ν → List (Spec κ ν) × Obs κ
     match ms[dst]?, ms[src]? with
     | some _, some m => (ms.set dst m, .done)
     | _, _ => (ms, .badOp)
+  | .newWith t kvs odd =>
+    if t < ms.length then
+      if odd then (ms, .raised .FormatError) else (ms.set t (Spec.ofPairs kvs), .done)
+    else (ms, .badOp)
+  | .assignMap dst kvs =>
+    if dst < ms.length then (ms.set dst (Spec.ofPairs kvs), .done) else (ms, .badOp)
 
 def specRun : List (Spec κ ν) → List (Op κ ν) → List (Spec κ ν) × List (Obs κ ν)
   | ms, [] => (ms, [])
